@@ -32,9 +32,13 @@ MidCases(pool, fails, fn, single) ==
   Concat([f \in 1..Len(fails) |->
     << Mk(fn, single, pool[1] \o fails[f] \o pool[2]), Mk(fn, single, fails[f] \o pool[1]),
        Mk(fn, single, pool[2] \o pool[1] \o fails[f] \o fails[f] \o pool[3]), Mk(fn, single, pool[3] \o fails[f] \o pool[3] \o fails[f]) >>])
-TlsFails == << EncRecordRaw(22, 771, <<99, 0, 0, 0>>), EncRecordRaw(21, 771, <<>>), EncRecordRaw(7, 771, <<1>>), EncRecordRaw(24, 771, <<1, 0, 9, 1>>),
+BadSidCh == <<1, 0, 0, 75, 3, 3>> \o Fill(5, 32) \o <<33>> \o Fill(6, 33) \o <<0, 2, 0, 47, 1, 0>>       \* ClientHello, session id of 33 bytes
+TlsFails == << EncRecordRaw(22, 771, BadSidCh), EncRecordRaw(23, 771, Fill(1, 16641)),                  \* ... and an oversized record with its whole body
+               EncRecordRaw(22, 771, <<99, 0, 0, 0>>), EncRecordRaw(21, 771, <<>>), EncRecordRaw(7, 771, <<1>>), EncRecordRaw(24, 771, <<1, 0, 9, 1>>),
                EncRecordRaw(20, 771, <<2>>) >>
-DtlsFails == << EncDtlsRecord(23, 65277, 0, <<0, 0, 3>>, <<1>>), EncDtlsRecord(23, 65277, 1, <<0, 0, 4>>, Fill(1, 100)),
+BadSidDch == <<254, 253>> \o Fill(5, 32) \o <<33>> \o Fill(6, 33) \o <<0, 0, 2, 0, 47, 1, 0>>
+DtlsFails == << EncDtlsRecord(22, 65277, 0, <<0, 0, 9>>, EncDtlsHs(1, Len(BadSidDch), 0, 0, Len(BadSidDch), BadSidDch)),
+                EncDtlsRecord(23, 65277, 0, <<0, 0, 3>>, <<1>>), EncDtlsRecord(23, 65277, 1, <<0, 0, 4>>, Fill(1, 100)),
                 EncDtlsRecord(22, 65277, 0, <<0, 0, 3>>, <<>>), EncDtlsRecord(24, 65277, 0, <<0, 0, 3>>, <<1, 0, 0>>),
                 EncDtlsRecord(22, 65277, 0, <<0, 0, 5>>, EncDtlsHs(4, 2, 0, 0, 2, <<1, 2>>)), EncDtlsRecord(20, 65277, 0, <<0, 0, 6>>, <<2>>) >>
 (* more than 2^16 bytes of records in one buffer (5 and 9 records of 16 KiB) *)
@@ -54,6 +58,7 @@ Build(pool, tails, fn, single) ==
 ASSUME TLCSet(1, Build(TlsPool, TlsTails, "tls_parser_many", "parse_tls_plaintext")
                  \o Build(DtlsPool, DtlsTails, "parse_dtls_plaintext_records", "parse_dtls_plaintext_record")
                  \o Build(SubSeq(TlsPool, 1, 3), SubSeq(TlsTails, 1, 5), "tls_parser", "parse_tls_plaintext")
+                 \o [q \in 1..Len(TlsPool) |-> Mk("tls_parser", "parse_tls_plaintext", TlsPool[q] \o TlsPool[1] \o <<22, 3>>)]
                  \o HugeCases
                  \o MidCases(TlsPool, TlsFails, "tls_parser_many", "parse_tls_plaintext")
                  \o MidCases(DtlsPool, DtlsFails, "parse_dtls_plaintext_records", "parse_dtls_plaintext_record")
